@@ -1,4 +1,5 @@
+import Rustic.Gen.Constants
+import Rustic.Lemmas.Chunker
 import Rustic.Model.Chunker
 import Rustic.Model.Rabin
-import Rustic.Lemmas.Chunker
 import Rustic.Props.C06
